@@ -93,3 +93,79 @@ class SBin:
 
     def __format__(self, spec):
         return repr(self)
+
+
+class SStr:
+    """text of concrete length whose characters are symbolic code points in the ASCII range (0..127): utf-8 / ascii encoding is then the
+    identity on octets.  Anything outside that range is not modelled (Inconclusive)."""
+    __slots__ = ("c",)
+
+    def __init__(self, codes):
+        self.c = list(codes)
+
+    def __len__(self):
+        return len(self.c)
+
+    def __bool__(self):
+        return len(self.c) > 0
+
+    def __hash__(self):
+        return 0x53594D
+
+    def encode(self, encoding="utf-8", errors="strict"):
+        from sxl.sbytes import _mk
+        if encoding.lower().replace("_", "-") not in ("utf-8", "utf8", "ascii", "latin-1", "latin1"):
+            from sxl.explore import Inconclusive
+            raise Inconclusive("SStr.encode(%r) not modelled" % encoding)
+        return _mk(list(self.c))
+
+    def __eq__(self, o):
+        if isinstance(o, str):
+            oc = [ord(x) for x in o]
+        elif isinstance(o, SStr):
+            oc = o.c
+        else:
+            return NotImplemented
+        if len(oc) != len(self.c):
+            return False
+        acc = []
+        for a, b in zip(self.c, oc):
+            r = a == b
+            if r is False:
+                return False
+            if r is not True:
+                acc.append(r)
+        r = conj(acc)
+        return r if r.__class__ is Bit else bool(r)
+
+    def __ne__(self, o):
+        r = self.__eq__(o)
+        if r is NotImplemented:
+            return r
+        return bnot(r) if r.__class__ is Bit else not r
+
+    def __getitem__(self, i):
+        if isinstance(i, slice):
+            return SStr(self.c[i])
+        return SStr([self.c[i]])
+
+    def __add__(self, o):
+        if isinstance(o, SStr):
+            return SStr(self.c + o.c)
+        if isinstance(o, str):
+            return SStr(self.c + [ord(x) for x in o])
+        return NotImplemented
+
+    def __radd__(self, o):
+        if isinstance(o, str):
+            return SStr([ord(x) for x in o] + self.c)
+        return NotImplemented
+
+    def __repr__(self):
+        return "SStr(%d chars)" % len(self.c)
+
+    def __format__(self, spec):
+        return "<sym-str>"
+
+    def __deepcopy__(self, memo):
+        return self
